@@ -5,16 +5,16 @@
    Send i | Recv j | Take j | Fin j | Next j | Store j | Count j | Entry j | Close k | Cancel | ...Ctx of
    any number of senders and receivers, any capacity) and model/Spawn.v (Thread/wait, argument slices).
    Take; Fin is Chan.NextEntry (receive, then advance rxCount atomically and build the entry from the
-   received value), what a range loop performs per iteration (fix 0f2710a);
-   Next/Store/Count/Entry is the generic Iterator protocol, which for channels is now reached only
-   through the builtins keys(ch) and map(ch). *)
+   received value): what a range loop (0f2710a) and the builtins keys(ch) / map(ch) (ce76520) perform per
+   value.  Next/Store/Count/Entry is the generic Iterator protocol (Chan.Next, Chan.Entry): exported Go API,
+   not reached by scripts on a channel any more. *)
 From Coq Require Import List Bool Arith NArith Permutation.
 Require Import RV.model.Chan RV.model.Spawn RV.proofs.ChanProofs RV.proofs.SpawnProofs.
 Import ListNotations.
 
 (* ---------------------------------------------------------------- exactly once, in order: every schedule *)
 
-(* Scripts that use send, receive (<-c, c.receive()), range loops, close - any number of senders, of
+(* Scripts that use send, receive (<-c, c.receive()), range loops, keys(ch), map(ch), close - any number of senders, of
    receiving and of ranging goroutines on the one channel, any capacity, any interleaving, cancellation
    included ([one_step_only]: no step of the Next/Entry protocol).  At any point where the queue is empty
    and no receiver is in the middle of a range step:
@@ -81,41 +81,11 @@ Theorem C10_range_complete : forall (prog : nat -> list N) (c : nat) (sch : list
   by_key j (delivered (seen s)) = by_key j (deq s).
 Proof. exact range_complete. Qed.
 
-(* ---------------------------------------------------------------- the Next/Entry protocol: keys(ch), map(ch)
-   The builtins keys() and map() consume a channel through the generic Iterator protocol: Chan.Next (value
-   dropped) then Chan.Entry, which reads the shared fields lastReceived / rxCount. *)
-
-(* G = [exclusive]: nobody starts a range step while a receiver is inside the protocol, nobody enters the
-   protocol while any receiver is inside NextEntry or the protocol
-   (decidable by running the schedule).  Under G the conclusion of C10_exactly_once holds. *)
-Theorem C10_iterator_protocol_guarded : forall (prog : nat -> list N) (c : nat) (sch : list act) (s : st),
-  run (init c prog) sch = Some s -> exclusive (init c prog) sch = true ->
-  buf s = [] -> iters s = [] ->
-  (forall i, from i (map snd (deq s)) ++ tag i (todo s i) = tag i (prog i)) /\
-  (forall j, by_key j (delivered (seen s)) = by_key j (deq s)) /\
-  entry_keys (seen s) = seq 0 (length (entry_keys (seen s))).
-Proof. exact guarded_delivery. Qed.
-
-(* the class a script controls: one goroutine (j0) consumes the channel with keys()/map(), any number of
-   others use receive(); nobody ranges *)
-Theorem C10_iterator_protocol_single_consumer : forall (j0 c : nat) (prog : nat -> list N) (sch : list act),
-  single_iter j0 sch = true -> exclusive (init c prog) sch = true.
-Proof. exact single_exclusive_init. Qed.
-
-(* without the guard the conclusion is false of the protocol: two goroutines inside keys(ch)/map(ch) -
-   Next 1 takes 10, Next 2 takes 11, receiver 1 stores 10 in lastReceived, receiver 2 overwrites it with 11,
-   both Entry steps read 11: 11 is handed out twice, 10 is lost *)
-Theorem C10_iterator_protocol_refuted :
-  exists (prog : nat -> list N) (c : nat) (sch : list act) (s : st),
-    run (init c prog) sch = Some s /\
-    buf s = [] /\ iters s = [] /\ (forall i, todo s i = []) /\
-    map snd (deq s) = [(0, 10%N); (0, 11%N)] /\
-    delivered (seen s) = [(1, (0, 11%N)); (2, (0, 11%N))] /\
-    multi_iter sch = true /\ exclusive (init c prog) sch = false.
-Proof. exists prog2, 2, sch_bad. exact range_multi_witness. Qed.
-
-(* what still holds of it under EVERY schedule: as many values handed to scripts (plus iterations in
-   progress) as the channel released, and nothing handed out that the channel did not release *)
+(* ---------------------------------------------------------------- every schedule, every step kind
+   The generic Iterator methods Chan.Next / Chan.Entry (steps Next, Store, Count, Entry of the model) are no
+   longer reached by scripts on a channel: range loops (0f2710a) and the builtins keys() / map() (ce76520) use
+   Chan.NextEntry.  They remain exported Go API; what holds of EVERY schedule, those steps included: as many
+   values handed out (plus steps in progress) as the channel released, and nothing that it did not release. *)
 Theorem C10_all_schedules_count_and_origin : forall (prog : nat -> list N) (c : nat) (sch : list act) (s : st),
   run (init c prog) sch = Some s ->
   length (delivered (seen s)) + length (iters s) = length (deq s) /\
@@ -124,15 +94,6 @@ Theorem C10_all_schedules_count_and_origin : forall (prog : nat -> list N) (c : 
   (forall p, In p (delivered (seen s)) -> In (snd p) (map snd (deq s))) /\
   (forall j ph m, In (j, (ph, m)) (iters s) -> In m (map snd (deq s))).
 Proof. exact weak_all_schedules. Qed.
-
-Theorem C10_iterator_protocol_ends_at_close : forall (s : st) (j : nat),
-  closed s = true -> buf s = [] -> busy j s = false ->
-  step s (Next j) = Some (note s (EvIterEnd j), EvIterEnd j).
-Proof. exact next_closed_drained. Qed.
-
-Theorem C10_iterator_protocol_ends_only_at_close : forall (s : st) (j : nat) (s' : st),
-  step s (Next j) = Some (s', EvIterEnd j) -> closed s = true /\ buf s = [] /\ s' = note s (EvIterEnd j).
-Proof. exact iter_end_only_when. Qed.
 
 (* ---------------------------------------------------------------- wait() *)
 
@@ -170,20 +131,6 @@ Example C10_exactly_once_satisfiable :
   exists s, run (init 2 (fun i => if Nat.eqb i 0 then [10; 11]%N else [])) ex_range_sch = Some s /\
             one_step_only ex_range_sch = true /\ buf s = [] /\ iters s = [] /\
             delivered (seen s) = [(2, (0, 11%N)); (1, (0, 10%N))] /\ entry_keys (seen s) = [0; 1].
-Proof. eexists. split; [vm_compute; reflexivity|]. vm_compute. repeat split. Qed.
-
-Definition ex_prog : nat -> list N := fun i => match i with 0 => [1; 2; 3]%N | 1 => [7; 8]%N | _ => [] end.
-Definition ex_sch : list act :=
-  [Send 0; Send 1; Next 5; Send 0; Store 5; Count 5; Entry 5; Recv 6; Send 1; Next 5; Store 5; Recv 6; Count 5; Entry 5;
-   Send 0; Next 5; Store 5; Count 5; Entry 5; Close 0; Next 5; Recv 6; Recv 6].
-
-Example C10_iterator_protocol_satisfiable :
-  exists s, run (init 2 ex_prog) ex_sch = Some s /\ exclusive (init 2 ex_prog) ex_sch = true /\
-            single_iter 5 ex_sch = true /\ buf s = [] /\ iters s = [] /\
-            by_key 5 (delivered (seen s)) = [(0, 1%N); (0, 2%N); (0, 3%N)] /\
-            by_key 6 (delivered (seen s)) = [(1, 7%N); (1, 8%N)] /\
-            entry_keys (seen s) = [0; 1; 2] /\
-            skipn 20 (seen s) = [EvIterEnd 5; EvRecvNil 6; EvRecvNil 6].
 Proof. eexists. split; [vm_compute; reflexivity|]. vm_compute. repeat split. Qed.
 
 Example C10_wait_satisfiable :
